@@ -10,7 +10,7 @@
     The corpus also contains the independently seeded breaking changes (seeded/<id>/patch.diff) whose meta.json records that this
     property's check reports them.
 (c) false-alarm regression: every behaviour-preserving refactor patch of refactors/*/patch.diff that touches a file the property is
-    anchored in (properties.jsonl anchors, plus the files the property's seeds and mutants touch) is applied to a scratch copy; the check
+    anchored in (crate of the properties.jsonl anchors and of the files the property's seeds and mutants touch) is applied to a scratch copy; the check
     must stay silent.  Alarms are listed in the evidence file (`refactor_corpus`), they are defects of the checker, not of /repo.
 """
 import concurrent.futures
@@ -139,10 +139,11 @@ def _relevant_files(pid):
 
 
 def refactor_corpus(pid, repo, R, workers=3):
-    rel = _relevant_files(pid)
+    # relevance at crate level: rules also read sibling code of the anchored files (the reader as oracle of the writer, shared tree types)
+    rel = set(f.split("/")[0] for f in _relevant_files(pid))
     todo = []
     for pf in sorted(glob.glob(os.path.join(VERIF, "refactors", "*", "patch.diff"))):
-        if _patch_files(pf) & rel:
+        if set(f.split("/")[0] for f in _patch_files(pf)) & rel:
             todo.append({"_name": os.path.basename(os.path.dirname(pf)), "patch": pf})
     if not todo:
         R.extra["refactor_corpus"] = {"patches": 0}
